@@ -60,151 +60,3 @@ Example C02_wf_example :
      GA [68;101;108;101;116;101;78;97;109;101;115;112;97;99;101] [PStr [110;115;48]]].
 Proof. apply wf_actionsb_spec. vm_compute. reflexivity. Qed.
 Print Assumptions C02_wf_example.
-
-(* ---------------------------------------------------------------------- *)
-(* C02, second sentence -- "patching the left document with the text produced
-   by diffing left against right gives a document equal to right."
-
-   C02_pipeline composes, in the model: XV.Pipeline.diff_model (Differ.match +
-   Differ.diff; similarity oracle), XV.Render.render_script (node identities
-   printed as utils.getpath strings in the tree as it is before each action:
-   the namedtuples the differ yields), XV.TextFormat.format (DiffFormatter),
-   XV.TextFormat.parse (DiffParser), XV.PatcherDSL.patch with the handler
-   programs GENERATED from patch.py (Patcher.patch):
-     the rendered script gs is formatted to a text, one action per line; parsing
-     that text gives back exactly gs; the patcher run on it returns (no error) a
-     tree T' pointwise equal to the differ's final tree W and equal to the right
-     document (tree_equivb: tags, attribute sets and values -- up to the
-     ignored attributes of the options --, texts, tails, comments, child order).
-
-   Hypotheses, besides those of C01_roundtrip (oracle laws "not (F <= 0)",
-   "0 != 1.0"; well-formed documents; script_ok: along the script the prefixes
-   getpath prints are bound in namespaces=, names printable as XPath, no
-   InsertNamespace for the default namespace -- checkable by script_okb):
-   - doc_fmt_okb L, doc_fmt_okb R (XV.Compose; booleans): in every node slot the
-     tag (Clark name) and the attribute names contain no comma, double quote or
-     line-break character and no leading/trailing white space (raw_okb: they are
-     written verbatim); attribute values, texts and tails are strings of XML
-     characters (xml_charb: non-surrogate code points <= U+10FFFF; they are
-     JSON-encoded, so commas, quotes and line breaks in them are fine);
-   - pe_raw_ok pe: the prefixes lxml prints contain no comma, quote, line break;
-   - ns_fmt_okb lns rns (boolean): the two root namespace maps are consistent and
-     the namespace actions they induce carry a prefix (not None) and raw_ok
-     prefix / URI.  A default-namespace declaration present on one root only
-     gives InsertNamespace(None, ..) / DeleteNamespace(None), on which
-     ", ".join(..) of DiffFormatter raises TypeError: excluded explicitly.
-   Proofs: XV.ComposeProofs (gen_script_lit: every string an action carries comes
-   from a label of the right document; spec_apply_labs_ok; getpath_raw_ok;
-   render_wf), with C01_roundtrip and C02_parse_format. *)
-Require Import XV.Forest XV.Matcher XV.Differ XV.Spec XV.WF XV.Path XV.PathProofs XV.PatcherDSL
-               XV.Gen.PatcherProg XV.Render XV.PatcherProofs XV.Pipeline XV.Compose XV.ComposeProofs.
-Local Close Scope N_scope.
-From Coq Require Import Bool Arith.
-Local Open Scope bool_scope.
-Local Open Scope nat_scope.
-
-Theorem C02_pipeline :
-  forall (sim : Type) (sim_ltb sim_leb : sim -> sim -> bool) (sim_is_one : sim -> bool)
-         (zero one : sim) (leaf_sim : str -> str -> sim) (combine : sim -> nat -> nat -> sim)
-         (o : mopts sim) (L R : forest) (rootL rootR : id) (lns rns : nsmap)
-         (pe : penv) (root_nsmap : list (option str * str)),
-  sim_leb (oF sim o) zero = false -> sim_is_one zero = false ->
-  wf_forest L rootL -> wf_forest R rootR ->
-  ns_fmt_okb lns rns = true ->
-  doc_fmt_okb L = true -> doc_fmt_okb R = true ->
-  (forall u p, pe u = Some p -> forallb raw_charb p = true) ->
-  (forall script W,
-     diff_model sim sim_ltb sim_leb sim_is_one zero one leaf_sim combine o L R rootL rootR lns rns
-       = Some (script, W) ->
-     script_ok pe rootL (nsmap_env root_nsmap) L script) ->
-  exists script W gs text T',
-    (* diff, and the actions as the API yields them *)
-    diff_model sim sim_ltb sim_leb sim_is_one zero one leaf_sim combine o L R rootL rootR lns rns
-      = Some (script, W)
-    /\ render_script pe rootL L script = Some gs
-    (* the text of the DiffFormatter, one action per line; DiffParser reads it back *)
-    /\ format tables gs = Ok text
-    /\ parse tables text = Ok gs
-    /\ length (splitlines text) = length gs
-    (* Patcher.patch on the parsed actions: no error, the right document *)
-    /\ patch actions_sig true rootL patcher_progs L root_nsmap gs = POk T'
-    /\ forest_ext_eq T' W
-    /\ tree_equivb (tree_map_attrs (node_attribs_d (oignored sim o)) (to_tree (S (fnext T')) T' rootL))
-                   (tree_map_attrs (node_attribs_d (oignored sim o)) (to_tree (S (fnext R)) R rootR)) = true.
-Proof.
-  intros sim sim_ltb sim_leb sim_is_one zero one leaf_sim combine o L R rootL rootR lns rns pe root_nsmap HF H1.
-  apply diff_text_patch. split; assumption.
-Qed.
-Print Assumptions C02_pipeline.
-
-(* Non-vacuity.  L = <r xmlns="u"><a k="1" i="7">x</a><b/></r>,
-   R = <r xmlns="u" xmlns:p="v"><b/><a k="2,&quot;" i="8">y\nz</a><p:c z="1"/>t</r>
-   (an attribute value with a comma and a double quote, a text with a line break, a
-   prefixed element), ignored_attrs = ["i"], nat-valued oracle.  All hypotheses
-   hold by computation; the text has 7 lines, starts with
-   "[insert-namespace, p, v]", and diff | format | parse | patch computes to a tree
-   equal to R up to the ignored attribute. *)
-Example C02_pipeline_example :
-  let L := mk_forest [(0, [1; 2])]
-            [(0, Lab (TElem [114%N]) [] None None);
-             (1, Lab (TElem [97%N]) [([107%N], [49%N]); ([105%N], [55%N])] (Some [120%N]) None);
-             (2, Lab (TElem [98%N]) [] None None)] 3 in
-  let R := mk_forest [(0, [1; 2; 3])]
-            [(0, Lab (TElem [114%N]) [] None None);
-             (1, Lab (TElem [98%N]) [] None None);
-             (2, Lab (TElem [97%N]) [([107%N], [50%N; 44%N; 34%N]); ([105%N], [56%N])] (Some [121%N; 10%N; 122%N]) None);
-             (3, Lab (TElem (clark [118%N] [99%N])) [([122%N], [49%N])] None (Some [116%N]))] 4 in
-  let leaf := fun a b : str => if str_eqb a b then 100 else
-              match a, b with x :: _, y :: _ => if N.eqb x y then 60 else 10 | _, _ => 10 end in
-  let comb := fun m c n : nat => if Nat.ltb 0 n && Nat.eqb c n then m else m * 70 / 100 in
-  let is_one := fun x => Nat.eqb x 100 in
-  let o := MOpts nat 50 [] false false [[105%N]] in
-  let lns : nsmap := [(None, [117%N])] in
-  let rns : nsmap := [(None, [117%N]); (Some [112%N], [118%N])] in
-  let pe : penv := fun u => if str_eqb u [118%N] then Some [112%N] else None in
-  let dm := diff_model nat Nat.ltb Nat.leb is_one 0 100 leaf comb o L R 0 0 lns rns in
-  (* hypotheses *)
-  Nat.leb (oF nat o) 0 = false /\ is_one 0 = false /\
-  wf_forest L 0 /\ wf_forest R 0 /\
-  ns_fmt_okb lns rns = true /\ doc_fmt_okb L = true /\ doc_fmt_okb R = true /\
-  (forall u p, pe u = Some p -> forallb raw_charb p = true) /\
-  (forall script W, dm = Some (script, W) -> script_ok pe 0 (nsmap_env lns) L script) /\
-  (* conclusion *)
-  match dm with
-  | Some (script, _) =>
-      match render_script pe 0 L script with
-      | Some gs =>
-          match format tables gs with
-          | Ok text =>
-              length (splitlines text) = 7 /\
-              nth 0 (splitlines text) [] =
-                [91;105;110;115;101;114;116;45;110;97;109;101;115;112;97;99;101;44;32;112;44;32;118;93]%N /\
-              match parse tables text with
-              | Ok gs' =>
-                  match patch actions_sig true 0 patcher_progs L lns gs' with
-                  | POk T' => tree_equivb (tree_map_attrs (node_attribs_d [[105%N]]) (doc_tree T' 0))
-                                          (tree_map_attrs (node_attribs_d [[105%N]]) (doc_tree R 0)) = true
-                  | _ => False
-                  end
-              | Err _ => False
-              end
-          | Err _ => False
-          end
-      | None => False
-      end
-  | None => False
-  end.
-Proof.
-  cbv zeta.
-  split; [reflexivity|]. split; [reflexivity|].
-  split; [apply wf_forestb_sound; vm_compute; reflexivity|].
-  split; [apply wf_forestb_sound; vm_compute; reflexivity|].
-  split; [vm_compute; reflexivity|]. split; [vm_compute; reflexivity|]. split; [vm_compute; reflexivity|].
-  split.
-  { intros u p. destruct (str_eqb u [118%N]); [|discriminate]. intros E. injection E as <-. reflexivity. }
-  split.
-  { intros script W E. pose proof (f_equal (option_map fst) E) as E'. vm_compute in E'.
-    injection E' as <-. apply script_okb_sound. vm_compute. reflexivity. }
-  vm_compute. repeat split; reflexivity.
-Qed.
-Print Assumptions C02_pipeline_example.
